@@ -16,27 +16,33 @@ def key_ev(ev, mism):
 def run(chk):
     exe = vlib.build_harness('release')
     exe_chk = vlib.build_harness('checked')
-    res = vlib.tlc('MC_Params', workers=4, xss='64m', timeout=1200, tag='MC_Params')
+    res = vlib.tlc('MC_Params', cfg='MC_Params.cfg' if chk.quick else 'MC_Params_thorough.cfg', workers=8, xss='64m', timeout=3000, tag='MC_Params')
     cases = None
     if vlib.expect_mc_ok(chk, res, 'MC_Params'):
         cases = [json.loads(json.loads(l)) for l in res.out.splitlines() if l.startswith('"{')]
     # (c) spec -> impl: the wrap ISIs solved by TLC, replayed in both profiles (tuple, produce, consume)
-    if cases:
-        cin = vlib.workfile('c15_wrap_cases.ndjson')
-        vlib.write_ndjson(cin, cases)
+    edges = [c for c in (cases or []) if c['kind'] == 'edge']
+    cases = [c for c in (cases or []) if c['kind'] == 'wrap']
+    chk.cov['degree_threshold_isis'] = len(edges)
+    for group, gname, extra in ((cases, 'wrap', ['--codec']), (edges, 'edge', [])):
+        if not group:
+            continue
+        cin = vlib.workfile('c15_%s_cases.ndjson' % gname)
+        vlib.write_ndjson(cin, group)
         for prof, e in (('checked', exe_chk), ('release', exe)):
-            cout = vlib.workfile('c15_wrap_results_%s.ndjson' % prof)
-            rc, out = vlib.run_drv(e, ['wrapreplay', '--in', cin, '--out', cout, '--codec'])
+            cout = vlib.workfile('c15_%s_results_%s.ndjson' % (gname, prof))
+            rc, out = vlib.run_drv(e, ['wrapreplay', '--in', cin, '--out', cout] + extra)
             if rc != 0:
                 raise vlib.ToolError('wrapreplay failed: ' + out[-300:])
-            vlib.log('[replay] wrap ISIs (%s): %s' % (prof, out.strip().splitlines()[-1]))
-            for m in vlib.read_ndjson(cout):
+            vlib.log('[replay] %s ISIs (%s): %s' % (gname, prof, out.strip().splitlines()[-1]))
+            for m in vlib.read_ndjson(cout)[:6]:
                 c = m['case']
-                chk.violation('wrap:%s:Kp=%d:X=%d' % (prof, c['kp'], c['x']),
-                              'ISI at which y+i wraps 32 bits (%s build): %s' % (prof, '; '.join(m['mismatch'])),
+                chk.violation('%s:%s:Kp=%d:X=%d' % (gname, prof, c['kp'], c['x']),
+                              ('ISI at which y+i wraps 32 bits' if gname == 'wrap' else 'ISI whose degree draw lands on a table threshold') +
+                              ' (%s build): %s' % (prof, '; '.join(m['mismatch'])),
                               {'case': c, 'got': m['got'], 'mismatch': m['mismatch'], 'profile': prof})
-            chk.cov['traces_validated_against_impl'] += len(cases)
-        for c in cases:
+            chk.cov['traces_validated_against_impl'] += len(group)
+        for c in group[:3]:
             chk.sample(c)
     # (a)+(b) impl -> spec
     jobs = []
@@ -72,7 +78,8 @@ def run(chk):
     chk.cov['rule'] = ('(a) every K in the tier\'s K set (quick: all Table-2 boundaries +-1 and 500 random; thorough: all 0..56403) '
                        'compared with Params(K); (b) (K\',X) pairs: X in 0..11, K\'-1..K\'+40, 2^24+K\'-1 and neighbours, uniform '
                        'samples, for all 477 K\', in release and overflow-checked builds; (c) the complete list of ISIs where '
-                       'y+i wraps (TLC solves X = (y-B)/A mod 2^32) produced and consumed in both builds; '
+                       'y+i wraps (TLC solves X = (y-B)/A mod 2^32) produced and consumed in both builds, and ISIs found by a TLC scan whose '
+                       'degree draw v equals a threshold f[d] or f[d]-1 (incl. v = 0) replayed in both builds; '
                        'distinct_nontrivial = logged events (all distinct inputs)')
     chk.cov['wrap_isis'] = [(c['kp'], c['x']) for c in (cases or [])]
     chk.assumptions += ['tables frozen in spec/Rfc6330Tables.tla', 'the only wrapping additions in Rand are y+i (argued in DESIGN C15)']
